@@ -108,3 +108,17 @@ Theorem fallback_not_atomic : exists old new k,
 Proof.
   exists (Some [97]), [98], 8%nat. vm_compute. split; discriminate.
 Qed.
+
+(* the whole function (recompiler.py:1433-1462): a file-like target receives, without any file operation, exactly
+   the text that the path branch compares/writes, and "updated" is reported; for a path target the function is
+   write_trace on that same text, so that after an update the target file holds what the file-like target got *)
+Theorem filelike_same_text : forall gen rename_ok old,
+  make_source the_holes gen true rename_ok old = Some ([], Some (gen GPreamble), true) /\
+  make_source the_holes gen false rename_ok old =
+    Some (trace_of rename_ok old (gen GPreamble), None, result_of rename_ok old (gen GPreamble)) /\
+  (result_of true old (gen GPreamble) = true ->
+   f_target (run (trace_of true old (gen GPreamble)) (fs0 old)) = Some (gen GPreamble)).
+Proof.
+  intros gen rename_ok old. split; [reflexivity|]. split; [reflexivity|].
+  intros H. exact (proj1 (proj1 (final_state old (gen GPreamble)) H)).
+Qed.
